@@ -602,7 +602,7 @@ func c05(tier string) int {
 	for key, o := range perScen {
 		run.Set("distinct_outcomes["+key+"]", len(o))
 		if len(o) < 2 {
-			ev.Internal("vacuous: scenario %s produced a single outcome over all schedules (nothing collided)", key)
+			run.Vacuous("scenario %s produced a single outcome over all schedules (nothing collided)", key)
 		}
 	}
 	run.Set("outcomes", perScen)
